@@ -64,7 +64,7 @@ func c14Hammer(st *Stack, stop <-chan struct{}, calls *atomic.Int64) *sync.WaitG
 }
 
 func runC14(r *ev.Run) {
-	r.Rule = "race-detector build (-race, halt_on_error=0, reports parsed and classified by access site): per stack the C01 ledger workload at high contention (3 nodes, 4 senders and 3 receivers per node, replies from inside callbacks) while other goroutines call LocalAddrs, MTU, ParseAddr, PublicKey and LookupPublicKey on the same swarms, then Close racing everything; the C11 ask workload; DHTNode handlers and Cache accessors called concurrently. Second oracle: every callback checksums its buffer at entry and exit and scribbles it, and the ledger shows whether old contents ever surface. non-trivial = the workload delivered messages while the API hammer made calls; distinct = (stack, workload)"
+	r.Rule = "race-detector build (-race, halt_on_error=0, reports parsed and classified by access site): per stack the C01 ledger workload at high contention (3 nodes, 4 senders and 3 receivers per node, replies from inside callbacks) while other goroutines call LocalAddrs, MTU, ParseAddr, PublicKey and LookupPublicKey on the same swarms, then Close racing everything; the C11 ask workload; DHTNode handlers and Cache accessors and iterators called concurrently, keys and values living in buffers the caller rewrites after every call. Second oracle: every callback checksums its buffer at entry and exit and scribbles it, and the ledger shows whether old contents ever surface. non-trivial = the workload delivered messages while the API hammer made calls; distinct = (stack, workload)"
 	r.Assumptions = []string{"the race detector only sees races in executed interleavings: held means no report (and no canary hit) in these executions", "reports whose access sites are both outside the library (quic-go, x/crypto) are recorded as external, not judged"}
 	if !raceEnabled {
 		r.Extra["warning"] = "not a -race build: only the buffer canary oracle is active in this pass"
